@@ -291,6 +291,8 @@ pub fn prepare_monitors(ctx: &Ctx) {
         monalloc::set_mode(monalloc::MODE_GUARD);
     }
     let _ = monalloc::drain_events();
+    let _ = guardmem::take_build_layouts();
+    guardmem::reset_counters();
 }
 
 impl<'a> Case<'a> {
@@ -455,7 +457,7 @@ impl<'a> Case<'a> {
         ctx.stats.bump("clone_events", clones.len() as u64);
         ctx.stats.bump("drop_events", ev1.1 - ev0.1);
         // no operation on an inline (stack) backend may allocate
-        if matches!(self.cfg.mem, MemKind::Stack | MemKind::StackN) {
+        if matches!(self.cfg.mem, MemKind::Stack | MemKind::StackN) && !matches!(op, Op::CloneEmptyIn { target: Target::Heap, .. }) {
             ctx.stats.bump("stack_ops_watched", 1);
             if ta1 != ta0 {
                 self.failed = true;
@@ -463,6 +465,28 @@ impl<'a> Case<'a> {
             }
         }
         self.capacity_check(ctx, op, &sig, &desc, &before, &out, (gm0, gm1), (ma0, ma1), (ev0, ev1));
+        // documented leak (forget): the prefix before the affected index is unchanged and whatever
+        // follows it is made of elements that were there before
+        for (v, n) in &exp.prefix_keep {
+            let s = self.rig.snap(*v);
+            let want: Vec<Val> = self.model.vecs[*v][..*n].iter().map(|i| Val::Id(*i)).collect();
+            if s.vals.len() < *n || s.vals[..*n] != want[..] {
+                self.failed = true;
+                ctx.report(&cfgname, "forget-prefix", &sig, format!(
+                    "after the leak v{v} is {:?}; the first {n} element(s) should still be {:?}", fmt_vals(&s.vals), &self.model.vecs[*v][..*n]), &desc);
+            } else {
+                for x in &s.vals[*n..] {
+                    let ok = match x {
+                        Val::Id(i) => exp.leaked.contains(i) || exp.maybe_lost.contains(i),
+                        _ => false,
+                    };
+                    if !ok {
+                        self.failed = true;
+                        ctx.report(&cfgname, "forget-prefix", &sig, format!("after the leak v{v} shows {x:?}, which was not one of its elements at or after the affected index"), &desc);
+                    }
+                }
+            }
+        }
         self.post_check(ctx, &sig, &desc, &exp.resync, Some(&before));
         (out, exp)
     }
@@ -482,6 +506,30 @@ impl<'a> Case<'a> {
         ev: ((u64, u64, u64), (u64, u64, u64)),
     ) {
         let cfgname = self.cfg.name.clone();
+        if let Op::RawRoundTrip { v, .. } = op {
+            if out.unsupported || out.panicked {
+                return;
+            }
+            ctx.stats.bump("raw_round_trips_checked", 1);
+            let b = &before[*v];
+            let a = self.rig.snap(*v);
+            if ev.0 != ev.1 {
+                self.failed = true;
+                ctx.report(&cfgname, "rawparts", sig, format!("into_raw_parts/from_raw_parts ran element code: (makes,drops,clones) {:?} -> {:?}", ev.0, ev.1), desc);
+            }
+            if ma.0.allocs != ma.1.allocs || ma.0.deallocs != ma.1.deallocs || ma.0.reallocs != ma.1.reallocs {
+                self.failed = true;
+                ctx.report(&cfgname, "rawparts", sig, format!(
+                    "the round trip touched the allocator: allocs {}->{}, reallocs {}->{}, deallocs {}->{}",
+                    ma.0.allocs, ma.1.allocs, ma.0.reallocs, ma.1.reallocs, ma.0.deallocs, ma.1.deallocs), desc);
+            }
+            if a.cap != b.cap || a.len != b.len || (a.base != b.base && self.cfg.elem.size > 0) {
+                self.failed = true;
+                ctx.report(&cfgname, "rawparts", sig, format!(
+                    "rebuilt vector differs: len {}->{}, capacity {}->{}, storage {:#x}->{:#x}", b.len, a.len, b.cap, a.cap, b.base, a.base), desc);
+            }
+            return;
+        }
         let (v, kind) = match op {
             Op::Reserve { v, .. } => (*v, 0),
             Op::ShrinkToFit { v, .. } => (*v, 1),
@@ -570,6 +618,16 @@ impl<'a> Case<'a> {
                     self.failed = true;
                     ctx.report(&cfgname, "capacity", sig, format!("v{v}: fixed backend reports capacity {} (expected {c})", s.cap), desc);
                 }
+            }
+            if s.bytes_len != s.len * self.cfg.elem.size || s.bytes_base != s.base || !s.bytes_eq {
+                self.failed = true;
+                ctx.report(&cfgname, "view", sig, format!(
+                    "v{v}: as_bytes() is [{:#x}; {}], the elements are [{:#x}; {} x {}]{}", s.bytes_base, s.bytes_len, s.base, s.len, self.cfg.elem.size,
+                    if s.bytes_eq { "" } else { " and the bytes differ" }), desc);
+            }
+            if s.misalign != 0 {
+                self.failed = true;
+                ctx.report(&cfgname, "align", sig, format!("v{v}: storage pointer {:#x} is not aligned to {}", s.base, self.cfg.elem.align), desc);
             }
             let garbage = s.vals.iter().any(|x| !matches!(x, Val::Id(_)));
             if garbage {
@@ -763,9 +821,13 @@ impl<'a> Case<'a> {
                 }
             }
             let (b, r, e, z, d, s) = guardmem::counters();
-            let _ = (b, e, z, d);
-            ctx.stats.bump("guard_relocations", 0);
-            let _ = (r, s);
+            ctx.stats.bump("backend_builds", b);
+            ctx.stats.bump("backend_relocations", r);
+            ctx.stats.bump("backend_expand_calls", e);
+            ctx.stats.bump("backend_resize_calls", z);
+            ctx.stats.bump("backend_drops", d);
+            ctx.stats.bump("backend_guard_scans", s);
+            guardmem::reset_counters();
         }
         guardmem::flush_quarantine();
         monalloc::flush_quarantine();
@@ -832,6 +894,7 @@ pub fn opsig(op: &Op) -> String {
         Op::LazyMulti(m) => format!("lazy{}({:?})x{}", m.depth, m.kind, m.uses.len()),
         Op::IterScript { how, clone_at, .. } => format!("{how:?}.script{}", if clone_at.is_some() { "+clone" } else { "" }),
         Op::CloneEmptyIn { target, .. } => format!("clone_empty_in({target:?})"),
+        Op::ViewWrite { via, .. } => format!("write({via:?})"),
         Op::Push { src: s, .. } => format!("push({})", src(s)),
         Op::Insert { src: s, .. } => format!("insert({})", src(s)),
         Op::Pop { sink: s, .. } => format!("pop->{}", sink(s)),
